@@ -1,7 +1,7 @@
 (* Extraction of the live list / DP scanner models and the C18 oracles. *)
 Require Extraction.
 Require ExtrOcamlBasic.
-From PB Require Telegram ScanBase LiveList Scan ScanOracle.
+From PB Require Telegram ScanBase LiveList Scan ScanOracle ScanTruth.
 Extraction Language OCaml.
 Extraction "model_scan.ml"
   Telegram.decode Telegram.fc_to_byte
@@ -10,4 +10,5 @@ Extraction "model_scan.ml"
   LiveList.ll_new LiveList.ll_run LiveList.ll_abs LiveList.ll_iter_stations
   Scan.sc_new Scan.sc_run Scan.sc_abs Scan.sc_parse
   ScanOracle.cursor_walk ScanOracle.probed ScanOracle.evs_matchb ScanOracle.alt_walk ScanOracle.no_other ScanOracle.no_silent
-  ScanOracle.converge_scan ScanOracle.resp_state_eqb ScanOracle.sc_pay_eqb ScanOracle.sweep_polls.
+  ScanOracle.converge_scan ScanOracle.resp_state_eqb ScanOracle.sc_pay_eqb ScanOracle.sweep_polls
+  ScanOracle.last_bits ScanTruth.truth_bad ScanTruth.truth_ok ScanTruth.explained.
